@@ -51,6 +51,12 @@ def check(ctx, report):
     report.rule('C11.R5', 'timestamp sentinel has the field width on both sides')
     fields_written_as_stored(ctx, report)
     report.floor('C11.R8', 20, 'timestamp fields')
+    # the primitives are functions of their arguments: nothing is remembered between two calls (a memo keyed by the wire word alone
+    # answers a shifted word with the members of the unshifted one); rules shared with C19.R5 / R10
+    from .c19 import module_level_state, stateless_parsing
+    module_level_state(ctx, report, RULE='C11.R10', title='the primitives keep nothing between calls: no function changes a module level container')
+    stateless_parsing(ctx, report, RULE='C11.R11', allow_memo=True, modules=('cryptoparser/common/parse.py',),
+                      title='no primitive writes class level state')
     pm = model.modules.get('cryptoparser.common.parse')
     if pm is None:
         report.error('C11: cryptoparser/common/parse.py vanished')
